@@ -185,7 +185,7 @@ func verifNext(z *html.Tokenizer) html.TokenType {
 	return t
 }
 func verifTokErrFn(z *html.Tokenizer) error { return verifTokErr }
-func verifText(z *html.Tokenizer) []byte     { return verifToks[verifTokPos-1].text }
+func verifText(z *html.Tokenizer) []byte    { return verifToks[verifTokPos-1].text }
 func verifTagName(z *html.Tokenizer) ([]byte, bool) {
 	if verifToks[verifTokPos-1].pre {
 		return []byte("pre"), false
